@@ -1,554 +1,142 @@
-"""Hunt for violations of C13 (equality is an equivalence compatible with hashing, and equal
-objects are interchangeable as operands) on the UNMODIFIED library.
+"""C13 hunt (third round): equality / hashing / interchangeability of equal objects.
 
-usage: PYTHONPATH=src python hunt_C13.py [seed [n_specifier_texts [n_marker_texts]]]
+Run:  cd /tmp/wt/C13i && PYTHONPATH=/tmp/wt/C13i/src /venv/bin/python hunt_C13.py
 
-Three parts:
-  1. targeted probes (the only candidate found: mixed-family `&` / `|` with the two spellings
-     of the universal set);
-  2. a random sweep over specifier objects: texts with many spellings of the same version
-     (trailing zeros, explicit epoch 0, leading zeros, `v` prefix, epochs, wildcards of several
-     depths, `~=` with 2..4 segments, `||`), plus results of & | ~; objects are grouped into
-     equality classes WITHOUT using hash; every class is checked for symmetry, reflexivity,
-     hash agreement, dict/set-key behaviour, same membership on a grid of final releases
-     (own oracle on the bounds and through `in`), rendering that parses back to the same set;
-     representatives of different classes must be unequal both ways (transitivity); equal x, y
-     are exchanged in a&x, x&a, a|x, x|a, ~x and the results must be equal, hash alike and
-     denote the same set;
-  3. the same for marker objects: every text is built along a second route (packaging Marker ->
-     from_pkg_marker, extra parentheses, extra blanks, re-parse of str()), results of & | only
-     exclude without_extras; equal objects must hash alike, render alike, evaluate alike on a
-     grid of 52 environments (final-release interpreters only) and be interchangeable in
-     a&x, x&a, a|x, x|a, only, exclude, without_extras (also compared with the truth table
-     computed from direct evaluation of both operands).
-The known families (pre-release environments, in/not in on version variables, ===, +local,
-post-release upper bounds, pre-release-only ranges, ordering on string variables, ...) are
-not generated.
+Prints each finding with the concrete input, what the library answers and what an
+independent oracle (packaging, or direct evaluation of both sides) says.
+
+F1, F2: equal objects that differ only in a cached / hidden field and are NOT
+        interchangeable.  They need `dataclasses.replace` (or passing the hidden field to
+        the constructor, or - for the non-frozen atom - plain attribute assignment): no
+        entry point of the library itself builds them.
+F3:     the stale duplicate module dep_logic/markers/utils.py still ships the old
+        OrderedSet (Set-derived, order-insensitive ==/hash); mixed with the live one it
+        gives equal objects with different hashes and a non-transitive ==.
+O*:     observations that are either outside the statement (API differences between the
+        two universal spellings) or inside an already known family (pre-releases).
 """
-import itertools
-import random
-import signal
-import sys
 
-from packaging.markers import Marker as PM
+from __future__ import annotations
+
+import dataclasses
+
+from packaging.markers import Marker
+from packaging.specifiers import SpecifierSet
 from packaging.version import Version
 
-from dep_logic.markers import from_pkg_marker, parse_marker
-from dep_logic.markers.any import AnyMarker
-from dep_logic.markers.empty import EmptyMarker
+from dep_logic.markers import parse_marker
+from dep_logic.markers.single import EqualityMarkerUnion, MarkerExpression
 from dep_logic.specifiers import (
     AnySpecifier,
     EmptySpecifier,
     GenericSpecifier,
     RangeSpecifier,
-    UnionSpecifier,
-    parse_version_specifier as P,
+    parse_version_specifier,
 )
 
+found = 0
 
-def probes():
-    print("== 1. targeted probes")
-    new = 0
-    A, R = AnySpecifier(), RangeSpecifier()
-    assert A == R and R == A and hash(A) == hash(R)
-    g = GenericSpecifier("==", "nt")  # what `os_name == "nt"` has as .specifier
-    for opname, f in (("g & u", lambda u: g & u), ("u & g", lambda u: u & g), ("g | u", lambda u: g | u), ("u | g", lambda u: u | g)):
-        res = []
-        for u in (A, R):
-            try:
-                res.append(repr(f(u)))
-            except Exception as e:
-                res.append(f"{type(e).__name__}: {e}")
-        if res[0] != res[1]:
-            if not new:
-                print(f"  CANDIDATE (weak): g = {g!r}; AnySpecifier() == RangeSpecifier() and hashes agree, but")
-            new += 1
-            print(f"     {opname}:  u = AnySpecifier() -> {res[0]}   |   u = RangeSpecifier() -> {res[1]}")
-    if new:
-        print("     oracle: equal operands must be interchangeable; both are the universal set, so the result")
-        print("     should be g (for &) / universal (for |) in both cases. Only reachable by mixing a")
-        print("     string-variable specifier with a version specifier by hand; the library never does it.")
-    # equal objects that differ in hidden state
-    x, y = P("==1.*"), P(">=1.0,<2.0")
-    assert x == y and hash(x) == hash(y), "simplified text must not take part in eq/hash"
-    x, y = P(">=1.0"), P(">=1.0.0.0")
-    assert x == y and hash(x) == hash(y) and len({x, y, P(">=0!1"), P(">=01.0")}) == 1
-    m = parse_marker('python_version >= "3.8" and os_name == "nt"')
-    h = hash(m)
-    (m & parse_marker('python_full_version < "3.10"')), (m | parse_marker('os_name == "posix"'))
-    assert hash(m) == h, "attached caches must not change the hash"
-    # observations: equal objects whose *form* differs (meaning is the same)
-    U1, U2 = P("<1||>=2"), P("<1.0||>=2.0")
-    assert U1 == U2 and hash(U1) == hash(U2)
+
+def finding(tag: str, text: str) -> None:
+    global found
+    found += 1
+    print(f"[{tag}] {text}")
+
+
+# --------------------------------------------------------------------------- F1
+# An atom whose cached specifier was filled, copied with dataclasses.replace():
+# `_specifier` is an init field (compare=False, hash=False), so the copy keeps the
+# cache of the ORIGINAL operand.
+src = parse_marker('python_version >= "3.8"')
+src.specifier  # fills the cache (any earlier `&` / `|` does the same)
+stale = dataclasses.replace(src, value="3.6")
+fresh = MarkerExpression("python_version", ">=", "3.6")
+upper = MarkerExpression("python_version", "<", "3.7")
+env = {"python_version": "3.6", "python_full_version": "3.6.9"}
+text = 'python_version >= "3.6" and python_version < "3.7"'
+oracle = Marker(text).evaluate(env)
+if stale == fresh and hash(stale) == hash(fresh):
+    r_stale = upper & stale
+    # a *different but equal* pair of atoms afterwards: served from the memo
+    r_fresh = MarkerExpression("python_version", "<", "3.7") & MarkerExpression(
+        "python_version", ">=", "3.6"
+    )
+    if r_stale.evaluate(env) != oracle or r_fresh.evaluate(env) != oracle:
+        finding(
+            "F1",
+            "x = dataclasses.replace(parse_marker('python_version >= \"3.8\"') [cache filled], value='3.6'); "
+            "y = MarkerExpression('python_version','>=','3.6'): x == y and hash(x) == hash(y), "
+            f"x._specifier = {stale._specifier!r}; "
+            f"(python_version < '3.7') & x -> {r_stale!r}; afterwards the same expression on FRESH atoms "
+            f"-> {r_fresh!r} (memo of _merge_single_markers poisoned); "
+            f"packaging evaluates {text!r} on python 3.6 to {oracle}, library results evaluate to "
+            f"{r_stale.evaluate(env)} / {r_fresh.evaluate(env)}",
+        )
+
+# --------------------------------------------------------------------------- F2
+r = parse_version_specifier(">=1.0")
+r2 = dataclasses.replace(r, min=Version("2.0"))
+f = RangeSpecifier(min=Version("2.0"), include_min=True)
+if r2 == f and hash(r2) == hash(f) and (("1.5" in r2) != ("1.5" in f) or str(r2) != str(f)):
+    finding(
+        "F2",
+        "x = dataclasses.replace(parse_version_specifier('>=1.0'), min=Version('2.0')); "
+        "y = RangeSpecifier(min=Version('2.0'), include_min=True): x == y, hashes equal, but "
+        f"str(x) = {str(r2)!r}, str(y) = {str(f)!r}; '1.5' in x = {'1.5' in r2}, '1.5' in y = {'1.5' in f} "
+        f"(packaging: SpecifierSet('>=2.0').contains('1.5') = {SpecifierSet('>=2.0').contains('1.5')}); "
+        "`simplified` is an init field that is copied and never checked against the bounds",
+    )
+
+# --------------------------------------------------------------------------- F3
+try:
+    from dep_logic.markers.utils import OrderedSet as StaleOrderedSet
+    from dep_logic.utils import OrderedSet
+except ImportError:
+    pass
+else:
+    n_ab, o_ab, n_ba = OrderedSet(["a", "b"]), StaleOrderedSet(["a", "b"]), OrderedSet(["b", "a"])
+    x = EqualityMarkerUnion("os_name", n_ab)
+    y = EqualityMarkerUnion("os_name", o_ab)
+    z = EqualityMarkerUnion("os_name", n_ba)
+    if x == y and hash(x) != hash(y):
+        finding(
+            "F3",
+            "dep_logic.markers.utils (never imported by the package, copy of the pre-fix utils) exports a "
+            "second OrderedSet: EqualityMarkerUnion('os_name', utils.OrderedSet(['a','b'])) == "
+            "EqualityMarkerUnion('os_name', markers.utils.OrderedSet(['a','b'])) is True, "
+            f"hashes equal: {hash(x) == hash(y)}, len(set) = {len({x, y})}; "
+            f"transitivity: x == y {x == y}, y == z {y == z}, x == z {x == z} "
+            "(z has the live OrderedSet(['b','a']))",
+        )
+
+# --------------------------------------------------------------------------- observations
+print()
+print("observations (not counted as new violations):")
+a, b = ~EmptySpecifier(), parse_version_specifier("")
+assert a == b and hash(a) == hash(b)
+for name in ("to_specifierset", "num_parts", "is_simple"):
+    row = []
+    for x in (a, b):
+        try:
+            v = getattr(x, name)
+            v = v() if callable(v) else v
+            row.append(f"{type(x).__name__}: {v!r}")
+        except Exception as e:  # noqa: BLE001
+            row.append(f"{type(x).__name__}: {type(e).__name__}")
+    print(f"  [O1] equal universal spellings, .{name}: " + " | ".join(row))
+g = GenericSpecifier("==", "a")
+row = []
+for x in (a, b):
     try:
-        t1 = str(U1.to_specifierset())
-    except Exception as e:
-        t1 = f"{type(e).__name__}: {e}"
-    print(f"  OBSERVATION (form only): {U1!r} == {U2!r}, but is_simple() {U1.is_simple()} vs {U2.is_simple()},")
-    print(f"     to_specifierset() -> {t1!r} vs {str(U2.to_specifierset())!r}; membership is identical (Version('1') == Version('1.0')).")
-    R1, R2 = P(">=1.0,<2"), P(">=1.0.0,<2")
-    assert R1 == R2 and hash(R1) == hash(R2)
-    print(f"  OBSERVATION (form only): {R1!r} == {R2!r}, num_parts {R1.num_parts} vs {R2.num_parts}; same set.")
-    # outside C13, noticed on the way: `~=` on a string variable parses but cannot be combined
-    a, b = parse_marker('os_name ~= "1.0"'), parse_marker('os_name == "a"')
-    try:
-        r = repr(a & b)
-    except Exception as e:
-        r = f"raises {type(e).__name__}: {e}"
-    print(f"  OUTSIDE C13: parse_marker('os_name ~= \"1.0\"') & parse_marker('os_name == \"a\"') {r}")
-    print("     (packaging parses the atom and raises UndefinedComparison only on evaluate; `&` / `|` with an")
-    print("     unequal atom of the same variable raise dep_logic InvalidSpecifier, x & x works)")
-    print(f"  {new} differing operations" if new else "  nothing")
-    return new
+        row.append(f"g & {type(x).__name__} -> {g & x!r}")
+    except Exception as e:  # noqa: BLE001
+        row.append(f"g & {type(x).__name__} -> {type(e).__name__}")
+print("  [O2] string-domain operand with the two universal spellings: " + " | ".join(row))
+w, c = parse_version_specifier("==1.*"), parse_version_specifier("~=1.0")
+print(
+    f"  [O3] (pre-release family, known) {w!r} == {c!r}: {w == c}; contains('1.0a1'): "
+    f"{w.contains('1.0a1')} vs {c.contains('1.0a1')}"
+)
 
-
-def spec_sweep(seed, N):
-    print(f"== 2. specifier sweep, seed {seed}, {N} texts")
-    rnd = random.Random(seed)
-
-    SPELL = {
-        "1": ["1", "1.0", "1.0.0", "0!1", "01", "1.0.0.0"],
-        "1.1": ["1.1", "1.1.0", "1.01", "0!1.1.0"],
-        "1.2": ["1.2", "1.2.0"],
-        "2": ["2", "2.0", "2.0.0", "v2"],
-        "2.1": ["2.1", "2.1.0"],
-        "3": ["3", "3.0", "3.0.0.0"],
-        "1!1": ["1!1", "1!1.0", "1!1.0.0"],
-        "1!2": ["1!2", "1!2.0"],
-        "1!1.1": ["1!1.1", "1!1.1.0"],
-        "0.9": ["0.9", "0.9.0"],
-        "1.1.1": ["1.1.1", "1.1.1.0"],
-    }
-    KEYS = list(SPELL)
-    GRID = [
-        Version(v)
-        for v in "0 0.5 0.9 0.9.1 1 1.0.1 1.1 1.1.0.1 1.1.1 1.1.2 1.2 1.2.1 1.9 2 2.0.1 2.1 2.1.1 2.5 3 3.1 4 1!0 1!0.5 1!1 1!1.0.1 1!1.1 1!1.1.5 1!1.2 1!1.9 1!2 1!2.5 1!3 2!0".split()
-    ]
-
-
-    def rv():
-        return rnd.choice(SPELL[rnd.choice(KEYS)])
-
-
-    def atom():
-        op = rnd.choice(["<", "<=", ">", ">=", "==", "!=", "~=", "==*", "!=*"])
-        v = rv()
-        if op == "~=":
-            if "." not in v:
-                v += ".0"
-            return op + v
-        if op.endswith("*"):
-            return op[:2] + v + ".*"
-        return op + v
-
-
-    def text():
-        k = rnd.choice([1, 1, 2, 2, 3])
-        s = ",".join(atom() for _ in range(k))
-        if rnd.random() < 0.3:
-            s += "||" + ",".join(atom() for _ in range(rnd.choice([1, 2])))
-        if rnd.random() < 0.1:
-            s += "||" + atom()
-        return s
-
-
-    def members(s):
-        if isinstance(s, (AnySpecifier,)):
-            return frozenset(GRID)
-        if isinstance(s, EmptySpecifier):
-            return frozenset()
-        if isinstance(s, RangeSpecifier):
-            out = []
-            for v in GRID:
-                ok = True
-                if s.min is not None:
-                    ok &= v > s.min or (v == s.min and s.include_min)
-                if s.max is not None:
-                    ok &= v < s.max or (v == s.max and s.include_max)
-                if ok:
-                    out.append(v)
-            return frozenset(out)
-        assert isinstance(s, UnionSpecifier)
-        return frozenset().union(*(members(r) for r in s.ranges))
-
-
-    def contains_set(s):
-        return frozenset(v for v in GRID if str(v) in s)
-
-
-    bad = []
-    pool = [AnySpecifier(), EmptySpecifier(), RangeSpecifier(), ~EmptySpecifier(), ~RangeSpecifier()]
-    texts = []
-    for _ in range(N):
-        t = text()
-        try:
-            s = P(t)
-        except Exception as e:  # noqa
-            print("parse error", t, type(e).__name__, e)
-            continue
-        texts.append(t)
-        pool.append(s)
-    # derived objects
-    base = list(pool)
-    for _ in range(N):
-        a, b = rnd.choice(base), rnd.choice(base)
-        op = rnd.choice("&|~")
-        try:
-            r = (a & b) if op == "&" else (a | b) if op == "|" else ~a
-        except Exception as e:
-            bad.append(("op raised", op, str(a), str(b), repr(e)))
-            continue
-        pool.append(r)
-
-    print("pool", len(pool))
-    # group by semantic membership first (eq must refine it)
-    checked = 0
-    by_hash = {}
-    classes = []
-    for x in pool:
-        for cl in classes:
-            if x == cl[0]:
-                cl.append(x)
-                break
-        else:
-            classes.append([x])
-    print("eq classes", len(classes))
-    for cl in classes:
-        rep = cl[0]
-        for y in cl:
-            checked += 1
-            if not (y == rep and rep == y and not (y != rep) and not (rep != y)):
-                bad.append(("asym", repr(rep), repr(y)))
-            if hash(y) != hash(rep):
-                bad.append(("hash", repr(rep), repr(y)))
-            if y != y:
-                bad.append(("irreflexive", repr(y)))
-            if members(y) != members(rep):
-                bad.append(("eq but different sets", repr(rep), repr(y)))
-            if contains_set(y) != contains_set(rep) or contains_set(y) != members(y):
-                bad.append(("contains differs", repr(rep), repr(y), sorted(map(str, contains_set(y) ^ members(y)))))
-            # rendering parses back to same set
-            try:
-                back = P(str(y))
-                if members(back) != members(y):
-                    bad.append(("render", repr(y), repr(back)))
-            except Exception as e:
-                bad.append(("render raised", repr(y), repr(e)))
-            if {rep: 1}.get(y) != 1 or y not in {rep}:
-                bad.append(("dict key", repr(rep), repr(y)))
-        # transitivity inside class: all pairs
-        for a, b in itertools.combinations(cl[:6], 2):
-            if not (a == b and b == a):
-                bad.append(("intransitive", repr(a), repr(b), repr(rep)))
-    # classes must be pairwise unequal both ways
-    reps = [c[0] for c in classes]
-    for a, b in itertools.combinations(reps[:400], 2):
-        if a == b or b == a:
-            bad.append(("class merge (intransitive/asym)", repr(a), repr(b)))
-    # interchangeability as operands
-    for cl in classes:
-        if len(cl) < 2:
-            continue
-        for _ in range(6):
-            x, y = rnd.sample(cl, 2)
-            a = rnd.choice(pool)
-            for name, f in (
-                ("a&x", lambda z: a & z),
-                ("x&a", lambda z: z & a),
-                ("a|x", lambda z: a | z),
-                ("x|a", lambda z: z | a),
-                ("~x", lambda z: ~z),
-            ):
-                checked += 1
-                try:
-                    rx = f(x)
-                except Exception as e:
-                    rx = ("EXC", type(e).__name__)
-                try:
-                    ry = f(y)
-                except Exception as e:
-                    ry = ("EXC", type(e).__name__)
-                if isinstance(rx, tuple) or isinstance(ry, tuple):
-                    if rx != ry:
-                        bad.append(("exc differs", name, repr(a), repr(x), repr(y), rx, ry))
-                    continue
-                if members(rx) != members(ry):
-                    bad.append(("not interchangeable", name, repr(a), repr(x), repr(y), repr(rx), repr(ry)))
-                if (rx == ry) != (members(rx) == members(ry)) and False:
-                    pass
-                if not (rx == ry) or hash(rx) != hash(ry):
-                    bad.append(("results unequal", name, repr(a), repr(x), repr(y), repr(rx), repr(ry)))
-    print("checked", checked, "bad", len(bad))
-    seen = set()
-    for b in bad:
-        k = b[0]
-        if k in seen and True:
-            continue
-        seen.add(k)
-        print(b)
-    return len(bad)
-
-
-def marker_sweep(seed, N):
-    print(f"== 3. marker sweep, seed {seed}, {N} texts")
-    rnd = random.Random(seed)
-
-
-    class TO(Exception):
-        pass
-
-
-    def _alarm(*a):
-        raise TO()
-
-
-    signal.signal(signal.SIGALRM, _alarm)
-
-
-    def timed(f, *a):
-        signal.setitimer(signal.ITIMER_REAL, 1.0)
-        try:
-            return f(*a)
-        finally:
-            signal.setitimer(signal.ITIMER_REAL, 0)
-
-
-    PV = ["3.7", "3.8", "3.9", "3.10", "3.8.0", "3", "3.9.0"]
-    PFV = ["3.7", "3.8", "3.8.0", "3.8.5", "3.9", "3.9.1", "3.10", "3.10.0", "3"]
-    STR = {
-        "os_name": ["nt", "posix", "java"],
-        "sys_platform": ["linux", "win32", "darwin"],
-        "platform_machine": ["x86_64", "arm64"],
-        "implementation_name": ["cpython", "pypy"],
-        "platform_system": ["Linux", "Windows"],
-    }
-    EXTRA = ["a", "b", "Foo_Bar", "foo-bar", "foo.bar"]
-
-
-    def atom():
-        k = rnd.random()
-        if k < 0.3:
-            name = rnd.choice(["python_version", "python_full_version"])
-            op = rnd.choice(["<", "<=", ">", ">=", "==", "!=", "~=", "==", ">="])
-            v = rnd.choice(PV if name == "python_version" else PFV)
-            if op == "~=" and "." not in v:
-                v += ".0"
-            if op in ("==", "!=") and rnd.random() < 0.2:
-                v = v.split(".")[0] + "." + (v.split(".")[1] if "." in v else "0") + ".*"
-            if rnd.random() < 0.15 and op != "~=" and "*" not in v:
-                from dep_logic.utils import get_reflect_op
-
-                return f'"{v}" {get_reflect_op(op)} {name}'
-            return f'{name} {op} "{v}"'
-        if k < 0.75:
-            name = rnd.choice(list(STR))
-            v = rnd.choice(STR[name])
-            r = rnd.random()
-            if r < 0.6:
-                op = rnd.choice(["==", "!="])
-                if rnd.random() < 0.15:
-                    return f'"{v}" {op} {name}'
-                return f'{name} {op} "{v}"'
-            if r < 0.8:
-                return f'{name} {rnd.choice(["in", "not in"])} "{v} {rnd.choice(STR[name])}"'
-            return f'"{v[:3]}" {rnd.choice(["in", "not in"])} {name}'
-        if k < 0.9:
-            return f'extra {rnd.choice(["==", "!="])} "{rnd.choice(EXTRA)}"'
-        if k < 0.95:
-            return f'"{rnd.choice(EXTRA)}" {rnd.choice(["in", "not in"])} {rnd.choice(["extras", "dependency_groups"])}'
-        name = rnd.choice(["platform_release", "implementation_version"])
-        return f'{name} {rnd.choice(["<", ">=", "==", "!="])} "{rnd.choice(["5.10", "5.10.0", "6.1", "3.9.1"])}"'
-
-
-    def text(d=0):
-        r = rnd.random()
-        if d >= 2 or r < (0.3 if d == 0 else 0.75):
-            return atom()
-        k = rnd.choice([2, 2, 3])
-        j = rnd.choice([" and ", " or "])
-        parts = []
-        for _ in range(k):
-            t = text(d + 1)
-            if (" and " in t or " or " in t):
-                t = f"({t})"
-            parts.append(t)
-        return j.join(parts)
-
-
-    ENVS = []
-    for pfv in ["3.6.9", "3.7.0", "3.7.5", "3.8.0", "3.8.5", "3.8.10", "3.9.0", "3.9.1", "3.10.0", "3.10.4", "3.11.2", "4.0.0", "2.7.18"]:
-        pv = ".".join(pfv.split(".")[:2])
-        for _ in range(4):
-            e = {"python_version": pv, "python_full_version": pfv}
-            for n, vs in STR.items():
-                e[n] = rnd.choice(vs + ["other"])
-            e["platform_release"] = rnd.choice(["5.10.0", "5.9", "6.1.2", "3.9.1"])
-            e["implementation_version"] = rnd.choice(["5.10.0", "3.9.1", "3.10.2"])
-            e["platform_version"] = "#1 SMP"
-            e["platform_python_implementation"] = "CPython"
-            ex = rnd.choice([set(), {"a"}, {"b", "foo-bar"}, {"Foo.Bar"}, {"a", "b"}])
-            e["extra"] = ex
-            e["extras"] = ex
-            e["dependency_groups"] = rnd.choice([set(), {"a"}, {"foo_bar"}])
-            ENVS.append(e)
-
-
-    def sem(m):
-        out = []
-        for e in ENVS:
-            try:
-                out.append(m.evaluate(e, "lock_file"))
-            except Exception as ex:
-                out.append(type(ex).__name__)
-        return tuple(out)
-
-
-    bad = []
-    pool = [AnyMarker(), EmptyMarker()]
-    srcs = []
-    timeouts = 0
-    for _ in range(N):
-        t = text()
-        try:
-            m = timed(parse_marker, t)
-        except TO:
-            timeouts += 1
-            continue
-        except Exception as e:
-            bad.append(("parse raised", t, repr(e)))
-            continue
-        pool.append(m)
-        srcs.append(t)
-        # a second, independently built spelling
-        r = rnd.random()
-        try:
-            if r < 0.3:
-                pool.append(timed(from_pkg_marker, PM(t)))
-            elif r < 0.5:
-                pool.append(timed(parse_marker, "(" + t + ")"))
-            elif r < 0.7:
-                pool.append(timed(parse_marker, t.replace(" and ", "  and ").replace(" or ", " or  ")))
-            elif r < 0.9 and str(m) not in ("", "<empty>"):
-                pool.append(timed(parse_marker, str(m)))
-        except TO:
-            timeouts += 1
-        except Exception as e:
-            bad.append(("respell raised", t, repr(e)))
-    base = list(pool)
-    for _ in range(N):
-        a, b = rnd.choice(base), rnd.choice(base)
-        op = rnd.choice(["&", "|", "only", "exclude", "wx"])
-        try:
-            if op == "&":
-                r = timed(lambda: a & b)
-            elif op == "|":
-                r = timed(lambda: a | b)
-            elif op == "only":
-                r = timed(lambda: a.only(*rnd.sample(["python_version", "os_name", "sys_platform", "extra", "python_full_version"], 2)))
-            elif op == "exclude":
-                r = timed(lambda: a.exclude(rnd.choice(["python_version", "os_name", "extra"])))
-            else:
-                r = timed(a.without_extras)
-        except TO:
-            timeouts += 1
-            continue
-        except Exception as e:
-            bad.append(("op raised", op, str(a), str(b), repr(e)))
-            continue
-        pool.append(r)
-
-    print("pool", len(pool), "timeouts", timeouts)
-    buckets = {}
-    classes = []
-    # eq classes without trusting hash: bucket by str length to keep it cheap, compare all in bucket
-    for x in pool:
-        key = (type(x).__name__, len(str(x)))
-        for cl in buckets.setdefault(key, []):
-            if x == cl[0]:
-                cl.append(x)
-                break
-        else:
-            cl = [x]
-            buckets[key].append(cl)
-            classes.append(cl)
-    print("eq classes", len(classes), "multi", sum(1 for c in classes if len({id(o) for o in c}) > 1))
-    checked = 0
-    for cl in classes:
-        rep = cl[0]
-        srep = sem(rep)
-        for y in cl:
-            checked += 1
-            if not (y == rep and rep == y and not (y != rep) and not (rep != y) and y == y):
-                bad.append(("asym", repr(rep), repr(y)))
-            if hash(y) != hash(rep):
-                bad.append(("hash", repr(rep), repr(y)))
-            if y is not rep and sem(y) != srep:
-                bad.append(("eq but evaluate differently", repr(rep), repr(y)))
-            if str(y) != str(rep):
-                bad.append(("eq but render differently", repr(rep), repr(y)))
-            if {rep: 1}.get(y) != 1 or y not in {rep} or y not in [rep]:
-                bad.append(("dict key", repr(rep), repr(y)))
-    # cross-type / cross-bucket equality (transitivity + symmetry): sample
-    reps = [c[0] for c in classes]
-    for _ in range(40000):
-        a, b = rnd.choice(reps), rnd.choice(reps)
-        if a is b:
-            continue
-        if (a == b) or (b == a):
-            bad.append(("cross-class equal", repr(a), repr(b)))
-    # interchangeability
-    for cl in classes:
-        objs = list({id(o): o for o in cl}.values())
-        if len(objs) < 2:
-            continue
-        for _ in range(3):
-            x, y = rnd.sample(objs, 2)
-            a = rnd.choice(base)
-            sa, sx = sem(a), sem(x)
-            for name, f, truth in (
-                ("a&x", lambda z: a & z, lambda p, q: p and q),
-                ("x&a", lambda z: z & a, lambda p, q: p and q),
-                ("a|x", lambda z: a | z, lambda p, q: p or q),
-                ("x|a", lambda z: z | a, lambda p, q: p or q),
-                ("only", lambda z: z.only("python_version", "os_name"), None),
-                ("excl", lambda z: z.exclude("os_name"), None),
-                ("wx", lambda z: z.without_extras(), None),
-            ):
-                checked += 1
-                try:
-                    rx = timed(f, x)
-                    ry = timed(f, y)
-                except TO:
-                    timeouts += 1
-                    continue
-                except Exception as e:
-                    bad.append(("op raised 2", name, str(a), str(x), repr(e)))
-                    continue
-                if sem(rx) != sem(ry):
-                    bad.append(("not interchangeable", name, str(a), repr(x), repr(y), repr(rx), repr(ry)))
-                if not (rx == ry) or hash(rx) != hash(ry) or str(rx) != str(ry):
-                    bad.append(("results unequal", name, str(a), repr(x), repr(y), repr(rx), repr(ry)))
-                if truth is not None and all(isinstance(v, bool) for v in sa + sx):
-                    exp = tuple(truth(p, q) for p, q in zip(sa, sx))
-                    if sem(rx) != exp:
-                        bad.append(("WRONG SEMANTICS (other property)", name, str(a), str(x), repr(rx)))
-    print("checked", checked, "bad", len(bad), "timeouts", timeouts)
-    seen = {}
-    for b in bad:
-        k = b[0]
-        seen[k] = seen.get(k, 0) + 1
-        if seen[k] > (3 if True else 1000):
-            continue
-        print(b)
-    print(seen)
-    return len(bad)
-
-
-if __name__ == "__main__":
-    seed = int(sys.argv[1]) if len(sys.argv) > 1 else 1
-    n1 = int(sys.argv[2]) if len(sys.argv) > 2 else 2000
-    n2 = int(sys.argv[3]) if len(sys.argv) > 3 else 250
-    c = probes()
-    b1 = spec_sweep(seed, n1)
-    b2 = marker_sweep(seed, n2)
-    print(f"SUMMARY: {c} weak candidate(s) from probes, {b1} specifier violations, {b2} marker violations")
+print()
+print(f"{found} finding(s)")
